@@ -59,6 +59,12 @@ def build(t, nice_only=False, kinds=("continuous", "slotted"), holds=False, chol
                 pf2.append(0)
         case["producer"] = prod2
         case["pcancel"] = pf2
+        if (pw[0] + cw[0]) % 2 == 0:
+            # a second source process shares the belt: its requests queue with the first one's in request order
+            # (every wait carries its own off-grid offset, so that a request of this process never falls into the same instant as
+            # one of the first process: the order of two same-instant requests is the kernel's, not the conveyor's)
+            case["producer2"] = [PW[(pw[(i + 1) % len(pw)] + cw[i % len(cw)]) % len(PW)] + 0.0137 * (i + 1) + (0.25 if i == 0 else 0)
+                                 for i in range(1 + n % 3)]
         if case.get("hold"):
             h2, k = [], 0
             for f_ in pf2:
